@@ -1057,6 +1057,20 @@ struct Exec {
                     viol(prop, clause, why, ctx);
                 } else {
                     check_regions(E, got, max_points, prop, ctx);
+                    // a load with a target unit (or a filter) is the native load rescaled: that includes the
+                    // curve tolerance the loaded paths carry (it drives later outlines and re-saves)
+                    if (ex.has("canon") && !op.has("tol")) {
+                        for (auto& kv : got.cells) {
+                            auto wit = want_c.cells.find(kv.first);
+                            if (wit == want_c.cells.end()) continue;
+                            for (auto& t : kv.second.path_tolerances)
+                                if (!wit->second.path_tolerances.empty() && !wit->second.path_tolerances.count(t)) {
+                                    viol(prop, "path_tolerance", "paths of cell '" + kv.first + "' were loaded with a curve tolerance of " + t +
+                                                                     " grid steps; the reference load of the same file gave " + *wit->second.path_tolerances.begin(), ctx);
+                                    break;
+                                }
+                        }
+                    }
                 }
             }
         }
